@@ -12,35 +12,34 @@ the statement/branch orders extracted from the current sources
 `mxDynRefsOrder`, `mxAllargsOrder`) – a reordering in exporter.py / transformer.py / space.py
 changes these definitions and the proofs below are re-checked against it.
 
-Both full statements are false of the real code; the triggers are named hypotheses
-(`BuiltinNamedSpaceOrParam`, `CellsShadowed`), the witnesses are `*_full_statement_fails`
-(known findings C15-builtin-named-space-or-param and C15-cells-shadowed-by-attr).
+The rewriting statement holds in full since the repair 77f6b99 (`rewrite_resolves_same`); the lookup
+statement is false of the real code: the trigger is a named hypothesis (`CellsShadowed`), the witness
+is `lookup_full_statement_fails` (known finding C15-cells-shadowed-by-attr).
 -/
 namespace MxModel.C15
 open MxModel.Export MxModel
 
 /-! ## 1. the rewriting decision of `FormulaTransformer.should_replace` -/
 
-/-- **Rewritten names resolve to the same class of object (partial).**  For every table of
-built-ins, every space (any cells, references, child spaces, parameters) and every name that
-is global in the formula: the exported method finds a member of the space where modelx finds
-one, the built-in where modelx falls through to the built-ins, and nothing where modelx
-finds nothing – unless the name is a built-in borne only by a child space or a parameter. -/
-theorem rewrite_resolves_same_partial (builtins : List String) (t : SpaceNames) (n : String)
-    (h : ¬ BuiltinNamedSpaceOrParam Generated.exportDummyFor builtins t n) :
+/-- **Rewritten names resolve to the same class of object.**  For every table of built-ins, every
+space (any cells, references, child spaces, parameters) and every name that is global in the
+formula: the exported method finds a member of the space where modelx finds one, the built-in
+where modelx falls through to the built-ins, and nothing where modelx finds nothing.  (Full
+statement since the repair 77f6b99; before it a built-in name borne only by a child space or a
+parameter was excluded, see `refs_only_dummies_fail` below.) -/
+theorem rewrite_resolves_same (builtins : List String) (t : SpaceNames) (n : String) :
     exportedResolve Generated.exportReplaceOrder Generated.exportDummyFor builtins t n =
       mxResolve builtins t n := by
-  unfold BuiltinNamedSpaceOrParam at h
-  simp only [exportedResolve, mxResolve, shouldReplace_generated] at h ⊢
-  rw [topNames_generated] at h ⊢
-  simp only [SpaceNames.isMember] at h ⊢
-  exact resolve_table _ _ _ _ _ h
+  simp only [exportedResolve, mxResolve, shouldReplace_generated]
+  rw [topNames_generated]
+  exact resolve_table _ _
 
-/-- The full statement is false: a child space (or ItemSpace parameter) named like a
-built-in is not rewritten, so the exported method reads the built-in. -/
-theorem rewrite_full_statement_fails :
+/-- With the dummy bindings of the code before 77f6b99 (references only) the statement is false: a
+child space (or ItemSpace parameter) named like a built-in is not rewritten, so the exported method
+reads the built-in (finding C15-builtin-named-space-or-param, repaired; witness in the corpus). -/
+theorem refs_only_dummies_fail :
     ¬ ∀ (builtins : List String) (t : SpaceNames) (n : String),
-      exportedResolve Generated.exportReplaceOrder Generated.exportDummyFor builtins t n =
+      exportedResolve Generated.exportReplaceOrder ["refs"] builtins t n =
         mxResolve builtins t n := by
   intro h
   have := h ["list"] { spaces := ["list"] } "list"
@@ -52,14 +51,13 @@ theorem member_wins_over_builtin (builtins : List String) (t : SpaceNames) (n : 
     (h : n ∈ t.cells ∨ n ∈ t.refs) :
     shouldReplace Generated.exportReplaceOrder Generated.exportDummyFor builtins t .global n = true := by
   rw [shouldReplace_generated, topNames_generated]
-  rcases h with h | h <;> simp [h]
+  rcases h with h | h <;> simp [SpaceNames.isMember, h]
 
 /-- a built-in that no member shadows stays a bare name -/
 theorem pure_builtin_stays (builtins : List String) (t : SpaceNames) (n : String)
     (hb : n ∈ builtins) (hm : t.isMember n = false) :
     shouldReplace Generated.exportReplaceOrder Generated.exportDummyFor builtins t .global n = false := by
   rw [shouldReplace_generated, topNames_generated]
-  simp [SpaceNames.isMember] at hm
   simp [hm, hb]
 
 /-- every other global name (child space, ItemSpace parameter, `_space`, `_model`, unknown)
